@@ -1,7 +1,9 @@
 package props
 
 import (
+	"fmt"
 	"verif/mc/core"
+	"verif/mc/dyn"
 	"verif/mc/schedx"
 )
 
@@ -10,4 +12,74 @@ func init() {
 	if core.RaceEnabled {
 		core.RegisterSelfTest("race monitor: racy canary reported, adjacent cells and atomically ordered accesses not", raceCanary)
 	}
+}
+
+// Key-soundness self-test for the explicit-state searches: states that the canonical key
+// merges must have the same futures.  For a small configuration every state keeps two
+// representative paths (the first two that reached it); the multiset of successor keys of
+// both must be equal at every level.  (An unsound key — e.g. one that renames the value 0 —
+// fails this.)
+func keySoundnessC12() error {
+	cfg := c12Cfg{"selftest", dyn.Int16, 2, 2, 3, 4, true, false}
+	type rep struct{ a, b []wop }
+	frontier := map[[16]byte]*rep{}
+	w0 := newWorld(cfg.t, cfg.C)
+	k0, _ := c12Key(w0, true)
+	frontier[k0] = &rep{a: []wop{}}
+	succ := func(path []wop) (map[[16]byte]int, map[[16]byte][]wop, error) {
+		cs := c12Case{T: tn(cfg.t), C: cfg.C, Ops: path}
+		w, fs := c12Replay(cs, len(path)+1)
+		if len(fs) > 0 {
+			return nil, nil, fmt.Errorf("replay failed: %s", fs[0].Msg)
+		}
+		keys := map[[16]byte]int{}
+		paths := map[[16]byte][]wop{}
+		for _, o := range c12Ops(w, cfg) {
+			np := append(append([]wop{}, path...), o)
+			w2, fs := c12Replay(c12Case{T: tn(cfg.t), C: cfg.C, Ops: np}, len(np))
+			if len(fs) > 0 {
+				return nil, nil, fmt.Errorf("op failed on the unchanged tree: %s", fs[0].Msg)
+			}
+			k, _ := c12Key(w2, true)
+			keys[k]++
+			paths[k] = np
+		}
+		return keys, paths, nil
+	}
+	for d := 0; d < cfg.depth; d++ {
+		next := map[[16]byte]*rep{}
+		for _, r := range frontier {
+			ka, pa, err := succ(r.a)
+			if err != nil {
+				return err
+			}
+			if r.b != nil {
+				kb, _, err := succ(r.b)
+				if err != nil {
+					return err
+				}
+				if len(ka) != len(kb) {
+					return fmt.Errorf("C12 key unsound: histories %v and %v share a key but have %d vs %d distinct successors", r.a, r.b, len(ka), len(kb))
+				}
+				for k, n := range ka {
+					if kb[k] != n {
+						return fmt.Errorf("C12 key unsound: histories %v and %v share a key but differ in their successors", r.a, r.b)
+					}
+				}
+			}
+			for k, p := range pa {
+				if e, ok := next[k]; !ok {
+					next[k] = &rep{a: p}
+				} else if e.b == nil && fmt.Sprint(e.a) != fmt.Sprint(p) {
+					e.b = p
+				}
+			}
+		}
+		frontier = next
+	}
+	return nil
+}
+
+func init() {
+	core.RegisterSelfTest("seqx: states merged by the C12 canonical key have equal successor sets (two representatives per state, depth 4)", keySoundnessC12)
 }
